@@ -225,8 +225,12 @@ class Lib:
                 raise Unsupported('scalar store into record map')
             nm = m.with_col('', z3.Store(m.cols[''], k, self.col_term(run, m.vkinds[''], v)))
         # a new key is appended at the end; an existing key keeps its position (A6: dict preserves insertion order)
-        newkeys = z3.If(T.amem(m.keys, k), m.keys, T.aappend(m.keys, k))
-        newkeys = z3.simplify(newkeys)
+        if run.entails(T.amem(m.keys, k)):
+            newkeys = m.keys
+        elif run.entails(z3.Not(T.amem(m.keys, k))):
+            newkeys = T.aappend(m.keys, k)
+        else:
+            newkeys = z3.If(T.amem(m.keys, k), m.keys, T.aappend(m.keys, k))
         run.set_heap(ref.loc, nm.with_keys(newkeys), 'vals' if z3.eq(newkeys, m.keys) else '*')
 
     # ---------------------------------------------------------------------------------- getattr
